@@ -118,6 +118,11 @@ func (s *coordinatorState) handleRetryResult(res result) {
 	// retry workers later
 	for h := range res.failed {
 		lastRetry := s.inRetry[h]
+		// the height may have been put back to failed meanwhile (a catch-up/recent job covering it
+		// failed, or another retry of it finished first): keep counting from the higher attempt
+		if failed, ok := s.failed[h]; ok && failed.count > lastRetry.count {
+			lastRetry = failed
+		}
 		// height will be retried after backoff
 		nextRetry, retryExceeded := s.retryStrategy.nextRetry(lastRetry, time.Now())
 		if retryExceeded {
